@@ -269,6 +269,16 @@ func generate(w *mon.W) {
 		for _, src := range c04.SkeletonSources() {
 			do(src)
 		}
+		// deep chains of one-argument calls, one-element lists and parentheses as
+		// an operand of a comparison in a join condition and under not()
+		for _, d := range []int{20, 24, 28, 32, 40, 64, 200, 1000} {
+			for _, wrap := range [][2]string{{"tolower(", ")"}, {"f(", ")"}, {"(", ")"}, {"not(", ")"}, {"x in (", ")"}, {"m[", "]"}, {"-(", ")"}} {
+				chain := strings.Repeat(wrap[0], d) + "$right.b" + strings.Repeat(wrap[1], d)
+				do("T | join kind=inner (U) on $left.a == " + chain)
+				do("T | join (U) on " + chain + " == $left.a, not(" + chain + " == 1)")
+				do("T | join kind=leftouter (U) on k, " + strings.Repeat(wrap[0], d) + "$left.a + $right.b" + strings.Repeat(wrap[1], d) + " == 0")
+			}
+		}
 		// every operator keyword with every lexeme glued to it, at the end of the
 		// pipeline and before another operator
 		for _, kw := range []string{"where", "filter", "project", "extend", "summarize", "sort", "order", "take", "limit", "top", "count", "join", "as", "render"} {
